@@ -255,8 +255,16 @@ def real_interpolant(sp, u, dtype=float):
     return itp, spl
 
 
-def within(x, bound):
-    return abs(x) <= bound
+def all_finite(*arrays):
+    return all(bool(np.all(np.isfinite(np.asarray(a, dtype=complex)))) for a in arrays)
+
+
+def inv_norm(Mfloat):
+    """||M^-1||_inf of an (oracle) matrix, None if singular"""
+    try:
+        return float(np.abs(np.linalg.inv(Mfloat)).sum(axis=1).max())
+    except np.linalg.LinAlgError:
+        return None
 
 
 # ----------------------------------------------------------------------------------------------
@@ -330,20 +338,34 @@ def check_1d(chk, drv, sp, u, dkind, stats):
     from pygyro.splines.spline_interpolators import SplineInterpolator1D
     case = dict(sp.desc(), data=dkind, u=[float(x) for x in u])
     xs = np.asarray(sp.basis.greville, dtype=float)
+    min_per = False
+    if sp.per and sp.nc == sp.p:
+        # the recorded finding is recognised by its specific symptom on the public collocation_matrix: a row that lost an entry
+        # (does not sum to one); any other failure on these spaces gets the generic signatures
+        try:
+            Mr0 = SplineInterpolator1D.collocation_matrix(sp.nb, sp.basis.knots, sp.p, xs, sp.per, sp.cu)
+            min_per = bool(np.any(np.abs(Mr0.sum(axis=1) - 1.0) > 1e-9))
+        except Exception:  # noqa: BLE001
+            min_per = False
     try:
         itp, spl = real_interpolant(sp, u)
     except Exception as e:  # noqa: BLE001
-        sig = 'C08:periodic-ncells-eq-degree' if (sp.per and sp.nc == sp.p) else 'C08:interpolator-raises'
+        sig = 'C08:periodic-ncells-eq-degree' if min_per else 'C08:interpolator-raises'
         chk.fail(sig, 'constructing the interpolator / computing the interpolant raised %s: %s' % (type(e).__name__, e),
                  case)
         return False
     c = np.array(spl.coeffs, dtype=float)
+    ev = [spl.eval(float(x)) for x in xs]
+    if not all_finite(c, ev, xs):
+        sig = 'C08:periodic-ncells-eq-degree' if min_per else 'C08:non-finite'
+        chk.fail(sig, 'interpolation produced non-finite coefficients / values (singular or wrongly stored collocation matrix)',
+                 case, actual=[float(x) for x in c])
+        return False
     cf = frs(c)
     ok = True
     # ---------------- oracle (no model)
     Mo = oracle_matrix(sp, frs(xs))
     sc_o = [sum(abs(Mo[i][j]) * abs(cf[j]) for j in range(sp.nb)) for i in range(sp.nb)]
-    ev = [spl.eval(float(x)) for x in xs]
     bad = None
     for i in range(sp.nb):
         d = abs(F(float(ev[i])) - F(float(u[i])))
@@ -355,7 +377,7 @@ def check_1d(chk, drv, sp, u, dkind, stats):
             break
     failed_sig = None
     if bad is not None:
-        failed_sig = 'C08:periodic-ncells-eq-degree' if (sp.per and sp.nc == sp.p) else 'C08:reproduce-1d'
+        failed_sig = 'C08:periodic-ncells-eq-degree' if min_per else 'C08:reproduce-1d'
         chk.fail(failed_sig, 'interpolant evaluated at interpolation point %d differs from the datum' % bad[0], case,
                  expected=bad[2], actual=bad[1])
         ok = False
@@ -514,6 +536,9 @@ def complex_1d(chk, drv):
         c = np.array(spl.coeffs)
         xs = np.asarray(sp.basis.greville, dtype=float)
         ev = np.array([complex(spl.eval(float(x))) for x in xs])
+        if not all_finite(c, ev, xs):
+            chk.fail('C08:non-finite', 'complex interpolation produced non-finite coefficients / values', case)
+            continue
         Mo = oracle_matrix(sp, frs(xs))
         cabs = [abs(F(float(z.real))) + abs(F(float(z.imag))) for z in c]
         bad = None
@@ -580,11 +605,18 @@ def polynomials(chk, drv):
         xs = np.asarray(sp.basis.greville, dtype=float)
         u = np.array([float(peval(q, F(float(x)))) for x in xs])
         case = dict(sp.desc(), polynomial=[float(x) for x in q])
-        itp, spl = real_interpolant(sp, u)
+        try:
+            itp, spl = real_interpolant(sp, u)
+        except Exception as e:  # noqa: BLE001
+            chk.fail('C08:interpolator-raises', 'interpolating polynomial data raised %s: %s' % (type(e).__name__, e), case)
+            continue
         # oracle on the real code: random points of the domain; the data are rounded values of q, the interpolation
         # operator amplifies that by at most ||M^-1||_inf (M from the independent Fraction basis)
-        Mo = np.array([[float(v) for v in r] for r in oracle_matrix(sp, frs(xs))])
-        kappa = float(np.abs(np.linalg.inv(Mo)).sum(axis=1).max())
+        Mo = np.array([[float(v) for v in r] for r in oracle_matrix(sp, frs(xs))]) if all_finite(xs) else None
+        kappa = inv_norm(Mo) if Mo is not None else None
+        if kappa is None or not all_finite(spl.coeffs):
+            chk.fail('C08:non-finite', 'interpolation points not unisolvent / non-finite coefficients for polynomial data', case)
+            continue
         ys = [float(sp.a) + (float(sp.b) - float(sp.a)) * rng.random() for _ in range(8)] + [float(sp.a), float(sp.b)]
         umax = max(1.0, float(np.max(np.abs(u))), float(sum(abs(x) for x in q)))
         for y in ys:
@@ -658,6 +690,9 @@ def interp_2d(chk, drv):
         x1 = np.asarray(s1.basis.greville, dtype=float)
         x2 = np.asarray(s2.basis.greville, dtype=float)
         ev = np.array([[spl.eval(float(a), float(b)) for b in x2] for a in x1])
+        if not all_finite(W, ev, x1, x2):
+            chk.fail('C08:non-finite', '2-D interpolation produced non-finite coefficients / values', case)
+            continue
         # ---- oracle
         M1 = np.array([[float(v) for v in r] for r in oracle_matrix(s1, frs(x1))])
         M2 = np.array([[float(v) for v in r] for r in oracle_matrix(s2, frs(x2))])
